@@ -68,10 +68,85 @@ static void vh_case_map(void)
 }
 static volatile int vh_dying;
 
+/* ---- tracking allocator (optional, single-threaded drivers only) ------------------------------------------------
+ * Installed through jwt_set_alloc.  jansson and the crypto libraries are not instrumented, so the sanitizer sees neither their reads
+ * nor their writes; this allocator adds what it can see from outside: (a) every block handed to the free function must have come
+ * from the malloc function (foreign free), (b) freed blocks are filled with 0xDD and kept until the next case begins; a block whose
+ * pattern has changed by then was written to after it was freed (a dangling json_t that is dereferenced reads the pattern: its
+ * reference count, type and pointers are 0xDD.., which ends in such a write or in a fault).  A finding is reported like a sanitizer
+ * report (stderr line "ERROR: HarnessAllocator: ...", then abort) so that it is attributed to the case in flight. */
+#define VA_PT (1u << 18)
+#define VA_QMAX 200000
+static void *va_pt[VA_PT];
+static unsigned va_sz[VA_PT];
+static struct { void *p; unsigned n; } va_q[VA_QMAX];
+static unsigned va_nq;
+static size_t va_qbytes;
+static int va_on;
+unsigned long vh_alloc_blocks, vh_alloc_checked;
+static unsigned va_slot(void *p) { return (unsigned)(((uintptr_t)p >> 4) * 2654435761u) & (VA_PT - 1); }
+static void va_add(void *p, size_t n)
+{
+	unsigned i = va_slot(p), spare = VA_PT;
+	for (unsigned k = 0; k < VA_PT && va_pt[i]; k++, i = (i + 1) & (VA_PT - 1)) {
+		if (va_pt[i] == p) { va_sz[i] = (unsigned)n; return; }	/* stale entry: the application released that block with free() itself */
+		if (va_pt[i] == (void *)1 && spare == VA_PT) spare = i;
+	}
+	if (spare != VA_PT) i = spare;
+	va_pt[i] = p; va_sz[i] = (unsigned)n;
+}
+static int va_del(void *p, size_t *n)
+{
+	unsigned i = va_slot(p);
+	for (unsigned k = 0; k < VA_PT && va_pt[i]; k++, i = (i + 1) & (VA_PT - 1))
+		if (va_pt[i] == p) { va_pt[i] = (void *)1; *n = va_sz[i]; return 1; }
+	return 0;
+}
+static void va_fail(const char *what, size_t n, size_t off)
+{
+	fprintf(stderr, "\nERROR: HarnessAllocator: %s (block of %zu bytes, offset %zu)\n", what, n, off);
+	fflush(stderr);
+	abort();
+}
+void vh_alloc_checkpoint(void)
+{
+	for (unsigned i = 0; i < va_nq; i++) {
+		const unsigned char *b = va_q[i].p;
+		for (unsigned j = 0; j < va_q[i].n; j++)
+			if (b[j] != 0xDD) { unsigned n = va_q[i].n; va_nq = 0; va_fail("write-after-free", n, j); }
+		free(va_q[i].p);
+		vh_alloc_checked++;
+	}
+	va_nq = 0; va_qbytes = 0;
+}
+static void *va_malloc(size_t n)
+{
+	void *p = malloc(n);
+	if (p) { va_add(p, n); vh_alloc_blocks++; }
+	return p;
+}
+static void va_free(void *p)
+{
+	size_t n = 0;
+	if (!p) return;
+	if (!va_del(p, &n)) va_fail("foreign-free", 0, 0);
+	memset(p, 0xDD, n);
+	if (va_nq >= VA_QMAX || va_qbytes > ((size_t)256 << 20)) vh_alloc_checkpoint();
+	va_q[va_nq].p = p; va_q[va_nq].n = (unsigned)n; va_nq++; va_qbytes += n;
+}
+static void va_atexit(void) { if (va_on) vh_alloc_checkpoint(); }
+void vh_alloc_install(void)
+{
+	if (jwt_set_alloc(va_malloc, va_free)) vh_harness_fail("jwt_set_alloc refused");
+	va_on = 1;
+	atexit(va_atexit);
+}
+
 void vh_case_begin(long idx, const char *fmt, ...)
 {
 	va_list ap;
 	int n;
+	if (va_on) vh_alloc_checkpoint();	/* what the previous case freed is judged while that case is still the one in flight */
 	vh_case_idx = idx;
 	/* layout: "<idx>\n<json fields>\0" so that the orchestrator can read the case in flight from the mapped file */
 	n = snprintf(vh_case_buf, 32, "%ld\n", idx);
@@ -387,7 +462,7 @@ static void sb_member_b64(sbuf_t *b, const char *name, const unsigned char *bin,
 static int sb_member_bn(sbuf_t *b, const char *name, EVP_PKEY *pk, const char *param, int width)
 {
 	BIGNUM *bn = NULL;
-	unsigned char buf[1100];
+	unsigned char buf[4200];	/* RSA members up to 32768 bits */
 	int n;
 	if (!EVP_PKEY_get_bn_param(pk, param, &bn))
 		return -1;
